@@ -155,6 +155,7 @@ def sites(root: I.El, spec: G.ModelSpec) -> list[tuple]:
     out.append(("encode", "utf-16"))
     out.append(("encode", "iso-8859-1"))
     out.append(("encode", "utf-8-sig"))
+    out.append(("encode", "utf-16-be+newline"))   # declared big-endian, no BOM, ends with a line feed (whose last byte is not white space on its own)
     # surrounding whitespace on non-string values: direct children / attributes of the root that belong to a
     # field of a non-string scalar type
     for f in spec.fields:
@@ -333,6 +334,8 @@ def apply(root: I.El, rw: tuple, spec: G.ModelSpec, workdir: str):
         data = text.encode("utf-8")
     elif enc == "utf-8-sig":
         data = text.encode("utf-8-sig")
+    elif enc == "utf-16-be+newline":
+        data = ('<?xml version="1.0" encoding="UTF-16BE"?>\n' + text + "\n").encode("utf-16-be")
     else:
         try:
             data = (f'<?xml version="1.0" encoding="{enc}"?>\n' + text).encode(enc)
